@@ -1003,6 +1003,14 @@ func (ev *Env) call(x *ast.CallExpr) Val {
 			specFail("rawbyte needs a mutable byte buffer")
 		}
 		return intV(sel(sel(ev.cur.get(ev.fx, "E|uint8|"), v.L[0]), "(+ "+v.L[1]+" "+ev.one(j, "index")+")"))
+	case "skey":
+		// skey(k): the map-key term of the string with content k boxed as an interface value
+		v := arg(0)
+		c := ev.one(v, "skey")
+		if v.T != nil && (isString(v.T) || isByteSlice(v.T)) {
+			c = ev.seqOf(v)
+		}
+		return intV("(ikey " + fmt.Sprint(ev.fx.E.typeIDOf(types.Typ[types.String])) + " (bxS " + c + "))")
 	case "mkey":
 		// mkey(k): the key term of a map key value
 		return intV(mapKey(arg(0)))
